@@ -93,13 +93,13 @@ Proof. exact deposited_restart. Qed.
 Print Assumptions C05_deposited_restart.
 
 Theorem C05_deposited_plain : forall (c : cfgR) (hist : list eventR), c_wt c = false -> c_eb c = false ->
-  s_all (spec_run c hist) = plain_hills c hist.
+  Forall never_wt hist -> s_all (spec_run c hist) = plain_hills c hist.
 Proof. exact deposited_plain. Qed.
 Print Assumptions C05_deposited_plain.
 
 (* ... and they are tabulated at the multiples of gridsUpdateFrequency and when the state is written *)
 Theorem C05_tabulated : forall (c : cfgR) (hist : list eventR) (i : inR), c_use_grids c = true ->
-  s_pend (spec_run c (hist ++ [EStep i])) = (if (i_it i mod c_gfreq c =? 0)%Z then [] else
+  s_pend (spec_run c (hist ++ [EStep i])) = (if (i_it i mod c_gfreq (final_cfg c hist) =? 0)%Z then [] else
      s_pend (spec_run c hist) ++
      (let c' := final_cfg c hist in
       if eligible c' i
